@@ -283,6 +283,7 @@ func runC04(p *core.Program, r *core.Report) {
 		r.Borrow("R4.1", func() { checkKeptSet(p, r, c2) })
 	}
 	r.Floor("R4.1", "draw sites in WLRecipe.Generate", len(g.draws), 3)
+	checkWLSuccessReturns(p, r, g, "R4.1")
 	eng := &panicEngine{p: p, r: r, roles: GetRoles(p)}
 
 	// word draw
@@ -408,6 +409,35 @@ func runC04(p *core.Program, r *core.Report) {
 	checkSeparatorPerGap(p, r, g, "R4.3")
 	// R4.4 Title iff capWords[i]
 	checkTitleIffCap(p, r, g, "R4.4")
+}
+
+// checkWLSuccessReturns: the rules read one assembly loop; they speak for the generator only if every
+// password it returns is the object whose tokens are that loop's accumulator (a second way out — a
+// fast path building its own token list — is a second generator nobody has looked at).
+func checkWLSuccessReturns(p *core.Program, r *core.Report, g *wlGen, rule string) {
+	name := core.FuncName(g.fn)
+	owners := map[ssa.Value]bool{}
+	if g.tsPhi != nil {
+		core.Instrs(g.fn, func(in ssa.Instruction) {
+			if st, ok := in.(*ssa.Store); ok {
+				if fa, ok := st.Addr.(*ssa.FieldAddr); ok && core.FieldName(fa) == passwordTokensField(p) && core.StripType(st.Val) == ssa.Value(g.tsPhi) {
+					owners[fa.X] = true
+				}
+			}
+		})
+	}
+	n := 0
+	for _, ret := range core.Returns(g.fn) {
+		if len(ret.Results) != 2 || core.IsNilConst(ret.Results[0]) {
+			continue
+		}
+		n++
+		r.Check(owners[ret.Results[0]], rule, name, "a returned password is the one assembled by the analysed loop", p.InstrPos(ret),
+			"returned value "+core.Describe(ret.Results[0])+" is not the object whose tokens are the loop's accumulator")
+	}
+	if n == 0 {
+		r.Unrecognised(rule, name, "success return", p.Pos(g.fn.Pos()), "no return of a password found")
+	}
 }
 
 func isFieldLoadOf(v ssa.Value) bool {
@@ -739,6 +769,7 @@ func runC05(p *core.Program, r *core.Report) {
 		}
 	})
 	r.Check(okRes, "R5.1c", name, "the password's tokens are the list accumulated by the loop", p.InstrPos(g.tsPhi), "")
+	checkWLSuccessReturns(p, r, g, "R5.1c")
 
 	// R5.1a
 	if len(atoms) != 1 {
@@ -1047,6 +1078,12 @@ func checkAccessors(p *core.Program, r *core.Report, atomV, sepV int64) {
 			r.Check(ok, "R5.3", core.FuncName(filt), "type filter is a full in-order sweep appending the value iff type == parameter", p.Pos(filt.Pos()), why)
 		}
 	}
+	checkTokenAccessors(p, r)
+}
+
+// checkTokenAccessors: Password.Tokens(), Token.Value() and Token.Type() hand out the stored fields
+// unchanged (what every observer of a generated or decoded password sees).
+func checkTokenAccessors(p *core.Program, r *core.Report) {
 	if f := p.Method("Password", "Tokens"); f != nil {
 		ok := false
 		for _, ret := range core.Returns(f) {
